@@ -32,7 +32,12 @@ func init() {
 		ID:   "C40",
 		Race: true,
 		Rule: "one storm per shard (seeded): a live node under the -race build with 1 block producer (honest blocks containing pool txs, periodic depth-1/2 reorgs), 4 submitters (signed transfers to AppendToTxPool, incl. deliberate double spends), 6 RPC-handler queriers and 3 direct store/pool readers running concurrently while the chain crosses checkpoint save heights; distinct = (shard, role, operation kind); non-trivial = the operation executed against the live node while at least one other role was running",
-		Shards:           func(tier string) int { if tier == "thorough" { return 12 }; return 4 },
+		Shards: func(tier string) int {
+			if tier == "thorough" {
+				return 12
+			}
+			return 4
+		},
 		Parallel:         4,
 		Run:              runC40,
 		FatalIsViolation: true,
@@ -40,8 +45,13 @@ func init() {
 			l := firstFatal(stderr)
 			return "fatal:" + l
 		},
-		TimeoutS: func(tier string) int { if tier == "thorough" { return 1500 }; return 600 },
-		Require:  []string{"blocks_processed", "pool_admitted", "rpc_queries", "direct_reads", "reorgs", "storm_overlap_ops"},
+		TimeoutS: func(tier string) int {
+			if tier == "thorough" {
+				return 1500
+			}
+			return 600
+		},
+		Require: []string{"blocks_processed", "pool_admitted", "rpc_queries", "direct_reads", "reorgs", "storm_overlap_ops"},
 		Assumptions: []string{"the race detector only sees races on executed interleavings: a clean run is 'no race on K storms covering these operations', not race freedom",
 			"RPC handlers are called directly (servers.* functions) with the globals wired as main.go does; servers.Server is nil so peer-listing handlers are excluded"},
 	})
@@ -258,23 +268,33 @@ func runC40(c *kit.Ctx) {
 	}
 	addr := func(i int) string { return node.Key(accts[i%len(accts)]).Address }
 	queries := []q{
-		{"getrawmempool", func(qr interface{ Intn(int) int }) map[string]interface{} { return servers.GetTransactionPool(servers.Params{}) }},
+		{"getrawmempool", func(qr interface{ Intn(int) int }) map[string]interface{} {
+			return servers.GetTransactionPool(servers.Params{})
+		}},
 		{"getrawmempool-all", func(qr interface{ Intn(int) int }) map[string]interface{} {
 			return servers.GetTransactionPool(servers.Params{"state": "all"})
 		}},
 		{"listproducers", func(qr interface{ Intn(int) int }) map[string]interface{} {
 			return servers.ListProducers(servers.Params{"state": "all"})
 		}},
-		{"getarbitersinfo", func(qr interface{ Intn(int) int }) map[string]interface{} { return servers.GetArbitersInfo(servers.Params{}) }},
+		{"getarbitersinfo", func(qr interface{ Intn(int) int }) map[string]interface{} {
+			return servers.GetArbitersInfo(servers.Params{})
+		}},
 		{"listcrcandidates", func(qr interface{ Intn(int) int }) map[string]interface{} {
 			return servers.ListCRCandidates(servers.Params{"state": "all"})
 		}},
-		{"listcurrentcrs", func(qr interface{ Intn(int) int }) map[string]interface{} { return servers.ListCurrentCRs(servers.Params{}) }},
-		{"getcrrelatedstage", func(qr interface{ Intn(int) int }) map[string]interface{} { return servers.GetCRRelatedStage(servers.Params{}) }},
+		{"listcurrentcrs", func(qr interface{ Intn(int) int }) map[string]interface{} {
+			return servers.ListCurrentCRs(servers.Params{})
+		}},
+		{"getcrrelatedstage", func(qr interface{ Intn(int) int }) map[string]interface{} {
+			return servers.GetCRRelatedStage(servers.Params{})
+		}},
 		{"getblockbyheight", func(qr interface{ Intn(int) int }) map[string]interface{} {
 			return servers.GetBlockByHeight(servers.Params{"height": float64(qr.Intn(int(nd.Height()) + 1))})
 		}},
-		{"getbestblockhash", func(qr interface{ Intn(int) int }) map[string]interface{} { return servers.GetBestBlockHash(servers.Params{}) }},
+		{"getbestblockhash", func(qr interface{ Intn(int) int }) map[string]interface{} {
+			return servers.GetBestBlockHash(servers.Params{})
+		}},
 		{"getbalancebyaddr", func(qr interface{ Intn(int) int }) map[string]interface{} {
 			return servers.GetBalanceByAddr(servers.Params{"addr": addr(qr.Intn(8))})
 		}},
@@ -302,14 +322,18 @@ func runC40(c *kit.Ctx) {
 		{"votestatus", func(qr interface{ Intn(int) int }) map[string]interface{} {
 			return servers.VoteStatus(servers.Params{"address": addr(qr.Intn(8))})
 		}},
-		{"getmininginfo", func(qr interface{ Intn(int) int }) map[string]interface{} { return servers.GetMiningInfo(servers.Params{}) }},
+		{"getmininginfo", func(qr interface{ Intn(int) int }) map[string]interface{} {
+			return servers.GetMiningInfo(servers.Params{})
+		}},
 		{"estimatesmartfee", func(qr interface{ Intn(int) int }) map[string]interface{} {
 			return servers.EstimateSmartFee(servers.Params{"confirmations": float64(1 + qr.Intn(10))})
 		}},
 		{"getarbitratorgroupbyheight", func(qr interface{ Intn(int) int }) map[string]interface{} {
 			return servers.GetArbitratorGroupByHeight(servers.Params{"height": float64(qr.Intn(int(nd.Height()) + 1))})
 		}},
-		{"getdposv2info", func(qr interface{ Intn(int) int }) map[string]interface{} { return servers.GetDPosV2Info(servers.Params{}) }},
+		{"getdposv2info", func(qr interface{ Intn(int) int }) map[string]interface{} {
+			return servers.GetDPosV2Info(servers.Params{})
+		}},
 		{"getcommitteecanuseamount", func(qr interface{ Intn(int) int }) map[string]interface{} {
 			return servers.GetCommitteeCanUseAmount(servers.Params{})
 		}},
